@@ -62,7 +62,7 @@ d = f"/verif/seeded/{pid}-{n}"
 os.makedirs(d, exist_ok=True)
 shutil.copy(diff, f"{d}/patch.diff"); shutil.copy(demo, f"{d}/demo.py")
 notes = open(f"{out}/NOTES.md").read() if os.path.exists(f"{out}/NOTES.md") else ""
-meta["needs_to_manifest"] = "see NOTES.md excerpt"; meta["breaker_notes"] = notes[:6000]
+meta["needs_to_manifest"] = "see NOTES.md excerpt"; meta["breaker_notes"] = notes[:20000]
 meta["what_was_run"] = f"scratch worktree {wt}: demo on pinned tree (rc {rc0}), full pytest suite with the change ({line}), demo with the change (rc {rc1}); then " + ("`git -C /repo apply patch.diff; bin/check {pid} <tier>; git -C /repo checkout -- .`" if MODE == "repo" else f"patch applied in the scratch worktree and `VERIF_REPO={wt} bin/check {pid} <tier>` (builders were using /repo at the time)")
 json.dump(meta, open(f"{d}/meta.json", "w"), indent=1)
 sh("rm -rf /verif/evidence/replay")
